@@ -96,8 +96,10 @@ type c20Sink struct {
 	wg   sync.WaitGroup
 }
 
-func newC20Sink(mode string) (*c20Sink, error) {
-	ln, err := net.Listen("tcp", "127.0.0.1:0")
+func newC20Sink(mode string) (*c20Sink, error) { return newC20SinkAt(mode, 0) }
+
+func newC20SinkAt(mode string, port int) (*c20Sink, error) {
+	ln, err := net.Listen("tcp", net.JoinHostPort("127.0.0.1", strconv.Itoa(port)))
 	if err != nil {
 		return nil, err
 	}
@@ -210,12 +212,16 @@ func c20Run(cfg c20Config, rnd *rand.Rand) (why string, detail map[string]any) {
 		// closed on the proxy's side when the write comes. Deterministic: every write fails.
 		sink, _ = newC20Sink("healthy")
 		port = sink.port()
-	case "refusing":
+	case "refusing", "refusing-then-fresh":
+		// refusing-then-fresh: nobody listens while message 0 is sent; from message 1 on a healthy
+		// destination listens on that very port (the peer has come back)
 		port = c20FreePort()
 	}
-	if sink != nil {
-		defer sink.close()
-	}
+	defer func() {
+		if sink != nil {
+			sink.close()
+		}
+	}()
 	established := 0
 	var estMu sync.Mutex
 	onEst := func(c net.Conn) {
@@ -263,6 +269,12 @@ func c20Run(cfg c20Config, rnd *rand.Rand) (why string, detail map[string]any) {
 	for i := 0; i < cfg.Messages; i++ {
 		m, b := c20Message(i, cfg.Size, rnd)
 		wire[i] = b
+		if cfg.Reconnect == "refusing-then-fresh" && i == 1 {
+			var lerr error
+			if sink, lerr = newC20SinkAt("healthy", port); lerr != nil {
+				return "", map[string]any{"inconclusive": "the port could not be listened on: " + lerr.Error()}
+			}
+		}
 		if cfg.Rereg && i > 0 && fct != nil {
 			p, _ := NewTCPClientTransportWithConn(newC20Conn(1, false))
 			fct.primary = p
@@ -346,10 +358,7 @@ func c20Run(cfg c20Config, rnd *rand.Rand) (why string, detail map[string]any) {
 	}
 	for i, r := range results {
 		total := count(sinkBufs, wire[i]) + count(inboundGood(), wire[i]) + count(staleGood(), wire[i])
-		freshPossible := cfg.Reconnect == "fresh" || cfg.Reconnect == "stale-once"
-		if cfg.Target == "backend" {
-			freshPossible = cfg.Reconnect == "fresh" || cfg.Reconnect == "stale-once"
-		}
+		freshPossible := cfg.Reconnect == "fresh" || cfg.Reconnect == "stale-once" || (cfg.Reconnect == "refusing-then-fresh" && i >= 1)
 		switch {
 		case cfg.Reconnect == "accept-reset" && !inboundAlive(i):
 			// don't-care: a write into a connection that is being reset may or may not succeed
@@ -381,10 +390,10 @@ func c20Run(cfg c20Config, rnd *rand.Rand) (why string, detail map[string]any) {
 			return fmt.Sprintf("the failed stale connection was written to %d more times", dead), detail
 		}
 	}
-	if (cfg.Reconnect == "fresh" || cfg.Reconnect == "stale-once") && len(sinkBufs) > 1 {
+	if (cfg.Reconnect == "fresh" || cfg.Reconnect == "stale-once" || cfg.Reconnect == "refusing-then-fresh") && len(sinkBufs) > 1 {
 		return fmt.Sprintf("%d connections were opened to a healthy destination (at most one is needed)", len(sinkBufs)), detail
 	}
-	if cfg.Reconnect == "fresh" || cfg.Reconnect == "stale-once" {
+	if cfg.Reconnect == "fresh" || cfg.Reconnect == "stale-once" || cfg.Reconnect == "refusing-then-fresh" {
 		// whatever reached the destination must be exactly the concatenation of
 		// the messages that were not taken by the inbound connection, in order
 		var want []byte
@@ -646,12 +655,12 @@ func TestVerifC20(t *testing.T) {
 	for rep := 0; rep < reps; rep++ {
 		for _, target := range []string{"client", "backend"} {
 			for _, in := range inbs {
-				for _, rc := range []string{"absent", "fresh", "stale-once", "refusing", "accept-reset", "accept-closed"} {
+				for _, rc := range []string{"absent", "fresh", "stale-once", "refusing", "accept-reset", "accept-closed", "refusing-then-fresh"} {
 					if target == "backend" && (rc == "absent" || rc == "stale-once") {
 						continue // a TCP backend always has a dial target; its stale connection is the cached one
 					}
 					for msgs := 1; msgs <= 3; msgs++ {
-						if in.failAt > msgs {
+						if in.failAt > msgs || (rc == "refusing-then-fresh" && msgs < 2) {
 							continue
 						}
 						for _, size := range sizes {
@@ -665,6 +674,9 @@ func TestVerifC20(t *testing.T) {
 								cfg := c20Config{Target: target, Inbound: in.name, Reconnect: rc, Messages: msgs, Size: size,
 									inFailAt: in.failAt, inPartial: in.partial, hasInbound: in.has, Rereg: rereg}
 								why, detail := c20Run(cfg, rnd)
+								if why == "" && detail != nil && detail["inconclusive"] != nil {
+									run.Inconclusive(1)
+								}
 								if why != "" {
 									// confirm once before reporting (real sockets are involved)
 									why2, _ := c20Run(cfg, rnd)
